@@ -138,6 +138,7 @@ def check_wallet(case, ctx):
     calls = [list(c) for c in case["calls"]]
     if case["same_account"]:
         calls = [[calls[0][0], c[1]] for c in calls]
+    first = None
     for n, (account, interval) in enumerate(calls):
         interval = [int(interval[0]), int(interval[1])]
         what = "generate(account=%d, interval=%r) call #%d on one %s wallet (testnet=%s)" % (account, interval, n + 1, case["source"], testnet)
@@ -145,6 +146,10 @@ def check_wallet(case, ctx):
         if st_ == "exc":
             raise Violation("C06/generate/raised", "%s raised %r" % (what, data))
         judge_record(data, rm, testnet, account, interval, echo, what)
+        if first is None:
+            first = (data, account, interval, what)
+        elif n == len(calls) - 1:
+            judge_record(first[0], rm, testnet, first[1], first[2], echo, first[3] + " re-read after %d later call(s)" % n)
         # JSON rendering parses back to the same data
         for indent in (None, 4):
             st_, js = call(w.json, data, indent)
